@@ -1,13 +1,15 @@
 #!/bin/bash
 # confirm_seeded.sh <worktree> <A|B> <dest-id>
 # confirms in the scratch worktree: demo passes on clean tree, fails with the patch, existing suite passes with the patch.
-# then stores patch.diff, demo.rs, meta.json under /verif/seeded/<dest-id>/ with a confirmation record
+# then stores patch.diff, demo.rs, meta.json under /verif/seeded/<dest-id>/ with a confirmation record.
+# The pinned suite has tests that use the 1 ms default time limit and fail under machine load on the clean tree too: the
+# suite is run up to three times and a test counts as failing only when it fails in every run.
 set -u
 WT=$1; V=$2; ID=$3
 D=$WT/deliver/$V
 export CARGO_NET_OFFLINE=true CARGO_TARGET_DIR=$WT/target
 cd $WT || exit 2
-git checkout -q -- . 
+git checkout -q -- .
 CRATE=biscuit-auth
 grep -q '"biscuit-capi' $D/meta.json 2>/dev/null && grep -q "biscuit_capi\|biscuit-capi" $D/demo.rs && CRATE=biscuit-capi
 mkdir -p $WT/$CRATE/tests
@@ -16,9 +18,16 @@ clean=$(cargo test --offline -j8 -p $CRATE --test seeded_demo 2>&1 | grep -E "^t
 git apply $D/patch.diff || { echo "APPLY FAILED"; exit 2; }
 patched=$(cargo test --offline -j8 -p $CRATE --test seeded_demo 2>&1 | grep -E "^test result" | tail -1)
 rm -f $WT/$CRATE/tests/seeded_demo.rs
-suite=$(cargo test --offline -j8 --workspace --no-fail-fast 2>&1 | grep -E "^test result|FAILED|failed" | grep -v "^test result: ok" | head -5)
+failing=""
+for run in 1 2 3; do
+  cargo test --offline -j8 --workspace --no-fail-fast 2>&1 | grep -E "^test .* \.\.\. FAILED|^error: could not compile|^error\[" | sort -u > /tmp/confirm_$$.run
+  if [ $run = 1 ]; then cp /tmp/confirm_$$.run /tmp/confirm_$$.all; else comm -12 /tmp/confirm_$$.all /tmp/confirm_$$.run > /tmp/confirm_$$.tmp; mv /tmp/confirm_$$.tmp /tmp/confirm_$$.all; fi
+  [ -s /tmp/confirm_$$.all ] || break
+done
+suite=$(head -5 /tmp/confirm_$$.all | tr '\n' ';')
+rm -f /tmp/confirm_$$.*
 git checkout -q -- .
-echo "clean: $clean"; echo "patched: $patched"; echo "suite-non-ok-lines: [$suite]"
+echo "clean: $clean"; echo "patched: $patched"; echo "suite-tests-failing-in-every-run: [$suite]"
 mkdir -p /verif/seeded/$ID
 cp $D/patch.diff $D/demo.rs $D/meta.json /verif/seeded/$ID/
 python3 - "$ID" "$clean" "$patched" "$suite" <<'PY'
@@ -26,7 +35,7 @@ import json,sys
 i,clean,patched,suite=sys.argv[1:5]
 p=f'/verif/seeded/{i}/meta.json'
 m=json.load(open(p))
-m['confirmed']={'demo_on_clean_tree':clean,'demo_with_patch':patched,'existing_suite_with_patch_non_ok_lines':suite,
-  'how':'selftest/confirm_seeded.sh in the scratch worktree: cargo test -p <crate> --test seeded_demo on clean tree and with patch; cargo test --workspace --no-fail-fast with patch'}
+m['confirmed']={'demo_on_clean_tree':clean,'demo_with_patch':patched,'existing_suite_with_patch_tests_failing_in_every_run':suite,
+  'how':'selftest/confirm_seeded.sh in the scratch worktree: cargo test -p <crate> --test seeded_demo on clean tree and with patch; cargo test --workspace --no-fail-fast with patch, up to 3 runs, a test counts as failing when it fails in every run (the suite has load-sensitive tests using a 1 ms time limit)'}
 json.dump(m,open(p,'w'),indent=1)
 PY
